@@ -365,6 +365,19 @@ def run (ctx):
     for nm, node in defs.undefined_names(repo, f):
       ctx.bad('R-DEF', f, "undefined name `%s`" % nm, "NameError on this path", (mod, node), 'D6')
 
+  # every request for a deferral takes out a new one: a deferral handed out twice is released twice - the second release raises, and
+  # Up is announced while the second holder is still initialising
+  ge_ = mod.classes.get('GoingUpEvent') if 'mod' in dir() else repo.mod('core').classes.get('GoingUpEvent')
+  gdf_ = ge_.methods.get('get_deferral') if ge_ is not None else None
+  if gdf_ is not None:
+    ctx.analysed(gdf_); gg_ = q.cfg_of(gdf_)
+    take_ = gg_.nodes_with_call(lambda c: call_name(c) == '_get_go_up_deferral')
+    good = bool(take_) and gg_.postdominates(take_, gg_.entry)
+    ctx.ob('R-EFFECT', gdf_, "each call of get_deferral takes out a new deferral", good, "_get_go_up_deferral() on every path" if good else
+           "some path through GoingUpEvent.get_deferral returns without calling _get_go_up_deferral(): two handlers of the same event share one token - the first release lets Up be raised while the other is still busy, and its own release raises RuntimeError", gdf_, 'D4')
+  # ---- mechanisms this property shares with others
+  ctx.include('C05', ['raiseEventNoErrors', '_revent_exception_hook', 'handleEventException'], "component registration announces itself through raiseEventNoErrors; a hook that raises aborts register() before the waiters are tried")
+
 def _parse_names (ctx, repo, core, ltd):
   """evaluate the handler-name parsing on sample method names"""
   mod = core.module
